@@ -142,6 +142,29 @@ def find_mask_events(b, evs):
                 out.append(MaskEvent(p.loc, p.obj, "b2" if Lb is not None else "bad-last_mut", Lb,
                                      "last_mut() &= mask(%s)" % show(width)))
             w.is_mask = True
+    # guarded direct form:  if L / BU < data.len() { data[L / BU] &= mask(L % BU) }
+    from . import guard
+    for w in writes:
+        if getattr(w, "is_mask", False) or w.index is None or w.via:
+            continue
+        width = None
+        if w.how == "call:bitand_assign" and len(w.value) == 1:
+            width = match_mask_call(w.value[0])
+        elif w.how == "assign" and is_bin(w.value, "BitAnd"):
+            for side, other in ((w.value[2], w.value[3]), (w.value[3], w.value[2])):
+                if side == w.target:
+                    width = match_mask_call(other)
+        if width is None:
+            continue
+        Li, Lw = split_div_bu(w.index), split_rem_bu(width)
+        if Li is None or Lw is None or Li != Lw:
+            continue
+        for sb, cond, taken, succ, other in guard.edges_dominating(b, w.loc[0]):
+            for op, l, r in guard.relations_on_edge(cond, taken):
+                if op == "Lt" and l == w.index and is_call(r, "len"):
+                    out.append(MaskEvent((sb, len(b.blocks[sb]["st"])), w.obj, "b1", Li,
+                                         "if %s / BU < len { data[%s / BU] &= mask(%s %% BU) }" % (show(Li), show(Li), show(Li))))
+                    w.is_mask = True
     for e in evs:
         if e.kind == "mcall" and e.name == "mod2n":
             e.is_mask = True
@@ -725,10 +748,13 @@ def used_words(crate):
                 a = b.e_operand(t["args"][0])
                 if a == ("field", ("param", "self"), "data"):
                     uses_alloc.append(bb)
-        iter_writes = [w for w in writes if w.index is not None and w.index[0] == "iter" and w.obj == ("param", "self")]
+        iter_writes = [w for w in writes if w.obj == ("param", "self") and (
+            (w.index is not None and w.index[0] == "iter") or (w.index is None and w.how.startswith("call:")))]
         if not uses_alloc and not iter_writes:
             continue
-        if b.name in USED_ALLOWED_LEN_USERS and not (b.name in ("eq", "cmp", "partial_cmp") and writes):
+        inplace = [w for w in writes if w.obj == ("param", "self")]
+        if b.name in USED_ALLOWED_LEN_USERS and not (b.name in ("eq", "cmp", "partial_cmp") and writes) \
+                and not (b.name in ("rotl", "rotr") and inplace):
             res.append((b, True, "allowed user of data.len(): %s" % USED_ALLOWED_LEN_USERS[b.name]))
             continue
         bad = []
@@ -740,6 +766,11 @@ def used_words(crate):
                 if mir.contains(src, lambda x: is_call(x, "len") and x[3] and x[3][0] == ("field", ("param", "self"), "data")):
                     bad.append("write self.data[%s] in a loop over %s (allocated words, not used words)"
                                % (b.iv_name(w.index[1]), show(src)))
+            if w.index is None and w.how.startswith("call:") and not any(v in ("get_mut", "last_mut", "first_mut") for v in w.via) \
+                    and w.how not in ("call:set_int",) and not _and_only(w):
+                tgt = show(w.target)
+                if "Range" not in tgt and "capacity_from_bit_len" not in tgt:
+                    bad.append("`%s` mutates the whole storage `%s` (allocated words, not used words)" % (w.how[5:], tgt[:50]))
             if w.index is not None and w.index[0] == "iter":
                 # mutable iteration over storage: must be restricted to the used words self.data[..cap(len)]
                 src = w.index[1]
